@@ -398,10 +398,18 @@ func runC18(r *Run) {
 			if !ok || (b.Op != token.NEQ && b.Op != token.EQL) {
 				return false, false
 			}
-			l, rr := backSlice(b.X), backSlice(b.Y)
-			isField := func(s *Slice) bool { return s.HasField("MsgEthereumTx", "Hash") }
-			isCalc := func(s *Slice) bool { return s.HasCall(func(g CallInfo) bool { return g.Name == "Hash" && g.Recv == "Transaction" }) }
-			if (isField(l) && isCalc(rr)) || (isField(rr) && isCalc(l)) {
+			// the recorded STRING itself is compared with the canonical spelling tx.Hash().Hex(): a comparison of
+			// parsed hashes would accept other spellings of the same bytes (case, missing 0x, leading junk), and the
+			// recorded string is what events and the RPC lookups use verbatim
+			isField := func(v ssa.Value) bool { return isFieldLoad(v, "MsgEthereumTx", "Hash") }
+			isCalc := func(v ssa.Value) bool {
+				c, ok := stripValue(v).(*ssa.Call)
+				if !ok || callInfo(c).Name != "Hex" {
+					return false
+				}
+				return backSlice(v).HasCall(func(g CallInfo) bool { return g.Name == "Hash" && g.Recv == "Transaction" })
+			}
+			if (isField(b.X) && isCalc(b.Y)) || (isField(b.Y) && isCalc(b.X)) {
 				return b.Op == token.EQL, true
 			}
 			return false, false
@@ -552,6 +560,47 @@ func runC18(r *Run) {
 			}
 			r.Check(len(missing) == 0, "R4", evmTypes+"."+tname+"#"+meth, P.Pos(fnPos(fn)), fmt.Sprintf("depends on %v", deps), fmt.Sprintf("%s.%s no longer depends on %v", tname, meth, missing))
 		}
+	}
+	// the shared helpers behind every fee/cost figure work in arbitrary precision: fee = big.Int.Mul(price,
+	// SetUint64(gas)), cost = big.Int.Add(fee, value); no machine-word arithmetic on their inputs (it wraps)
+	for name, op := range map[string]string{"fee": "Mul", "cost": "Add"} {
+		fn, ok := P.FnOK(evmTypes + "." + name)
+		if !ok {
+			r.Bad("R4", evmTypes+"."+name+"#arbitrary-precision", "", "helper not found")
+			continue
+		}
+		machine := ""
+		eachInstr(fn, func(in ssa.Instruction) {
+			if bo, ok := in.(*ssa.BinOp); ok {
+				switch bo.Op {
+				case token.MUL, token.ADD, token.SUB, token.SHL:
+					if bt, ok := bo.Type().Underlying().(*types.Basic); ok && bt.Info()&types.IsInteger != 0 {
+						machine = bo.Op.String() + " at " + P.Pos(instrPos(in))
+					}
+				}
+			}
+		})
+		okRet, nRet := true, 0
+		eachInstr(fn, func(in ssa.Instruction) {
+			ret, ok := in.(*ssa.Return)
+			if !ok {
+				return
+			}
+			nRet++
+			v := stripValue(retOperands(ret)[0])
+			if name == "cost" {
+				// cost returns fee itself when value is nil
+				if p, ok := v.(*ssa.Parameter); ok && p.Name() == "fee" {
+					return
+				}
+			}
+			c, ok := v.(*ssa.Call)
+			if !ok || callInfo(c).Name != op || callInfo(c).Recv != "Int" || callInfo(c).PkgPath != "math/big" {
+				okRet = false
+			}
+		})
+		r.Check(machine == "" && okRet && nRet >= 1, "R4", evmTypes+"."+name+"#arbitrary-precision", P.Pos(fnPos(fn)), name+" = big.Int."+op+"(…) on every path, no machine-word arithmetic",
+			fmt.Sprintf("the helper %s() no longer computes big.Int.%s on every path (machine-word arithmetic: %q): a product or sum of message fields that exceeds 64 bits wraps, so Fee/Cost figures of the message differ from the Ethereum transaction's", name, op, machine))
 	}
 }
 
